@@ -664,6 +664,84 @@ theorem inference_fresh (items : List (String × Model)) (ts : List String) (s0 
   rw [hvm]
   exact hf (k, m) (mem_of_lookup k m _ hm) hs
 
+/-! ## A training run that fails, and a model registered after the wiring -/
+
+theorem trainF_infObj (bumps : List (String × Nat)) (k : String) (m : Model) :
+    (trainF bumps k m).infObj = m.infObj ∧ (trainF bumps k m).infVersion = m.infVersion := by
+  unfold trainF
+  cases lastBump bumps k <;> exact ⟨rfl, rfl⟩
+
+/-- **An aborted training run reaches nobody.** If `train()` raises - after changing any of the
+parameters it was working on - `run()` is left before `sync_models()`: the inference dictionary, every
+trainer's retrieved set and, for every name, the object and the parameters the agent sees are exactly
+what they were; only training-side parameters differ. Inference keeps showing the latest *completed*
+training (or load). -/
+theorem failed_run_keeps_inference (s s' : Sys) (t : String) (bumps : List (String × Nat))
+    (h : s.runFail t bumps = .ok s') :
+    s'.dict.inf = s.dict.inf ∧ s'.trainers = s.trainers ∧ (∀ k, s'.agentView k = s.agentView k) ∧
+    s'.dict.data = s.dict.data.map (fun kv => (kv.1, trainF bumps kv.1 kv.2)) := by
+  unfold Sys.runFail at h
+  cases hr : s.retrieved t with
+  | error e => simp [hr] at h
+  | ok names =>
+    simp only [hr] at h
+    cases ht : trainModels names bumps s.dict.data with
+    | error e => simp [ht] at h
+    | ok data' =>
+      simp only [ht, Except.ok.injEq] at h
+      subst h
+      obtain ⟨_, hd⟩ := trainModels_eq names bumps _ _ ht
+      refine ⟨rfl, rfl, ?_, hd⟩
+      intro k
+      simp only [Sys.agentView, Dict.agentGet]
+      cases hl : s.dict.inf.lookup k with
+      | none => rfl
+      | some o =>
+        simp only
+        rw [hd, List.find?_map]
+        have hp : ((fun km : String × Model => decide (km.2.infObj = some o)) ∘
+            fun kv : String × Model => (kv.1, trainF bumps kv.1 kv.2)) =
+            (fun km : String × Model => decide (km.2.infObj = some o)) := by
+          funext kv
+          simp only [Function.comp, (trainF_infObj bumps kv.1 kv.2).1]
+        rw [hp]
+        cases hf : s.dict.data.find? (fun km => decide (km.2.infObj = some o)) with
+        | none => rfl
+        | some km =>
+          simp only [Option.map_some, (trainF_infObj bumps km.1 km.2).2]
+
+theorem lookup_assocSet_self {α} (k : String) (v : α) : (l : List (String × α)) →
+    (assocSet k v l).lookup k = some v
+  | [] => by simp [assocSet, List.lookup]
+  | (k', v') :: rest => by
+    by_cases hk : k' = k
+    · simp [assocSet, hk, List.lookup]
+    · have hne : (k == k') = false := by simp [Ne.symm hk]
+      simp [assocSet, hk, List.lookup, hne, lookup_assocSet_self k v rest]
+
+/-- **A model registered after the wiring is the one the agent gets.** `training_models[k] = m` for a
+model with an inference model - a new name or a replacement - stores `m` under `k` and puts `m`'s own
+inference object (created now if need be) into the live inference dictionary the agent holds: the next
+`get_inference_model(k)` yields the very object `m` synchronises into. -/
+theorem set_item_same_object (s s' : Sys) (k : String) (m : Model) (hm : m.hasInf = true)
+    (h : s.setItem k m = .ok s') :
+    ∃ m' o, s'.dict.data.lookup k = some m' ∧ m'.infObj = some o ∧ s'.dict.agentGet k = .ok o ∧
+      m'.trainVersion = m.trainVersion ∧ m'.hasInf = m.hasInf ∧ m'.infOnly = m.infOnly := by
+  unfold Sys.setItem Dict.setItem at h
+  simp only [hm, if_true] at h
+  unfold Model.inferenceModel at h
+  simp only [hm, Bool.not_true, Bool.false_eq_true, if_false] at h
+  cases ho : m.infObj with
+  | some o =>
+    simp only [ho, Except.ok.injEq] at h
+    subst h
+    exact ⟨m, o, lookup_assocSet_self k m _, ho, by simp [Dict.agentGet, lookup_assocSet_self], rfl, rfl, rfl⟩
+  | none =>
+    simp only [ho, Except.ok.injEq] at h
+    subst h
+    exact ⟨_, s.dict.nextObj, lookup_assocSet_self k _ _, rfl,
+      by simp [Dict.agentGet, lookup_assocSet_self], rfl, by simp [hm], rfl⟩
+
 /-! ## Outside the quantifier: mutating the container after launch
 
 The hypothesis "distinct names" above is what `launch()` provides (one `__setitem__` per name).
